@@ -107,7 +107,7 @@ class Child(object):
 
 def run(fns, schedule=None, kill=None, max_steps=20000):
     """fns: callables, one per simulated process.
-    schedule: list of ints; at each step the child `runnable[schedule[t] % len(runnable)]` performs ONE operation;
+    schedule: list of ints (and of strings "s<slot>" / "f<slot>"); at each step the child `runnable[schedule[t] % len(runnable)]` performs ONE operation;
               when the list is exhausted the lowest runnable child runs to completion, then the next one.
     kill: (slot, n): SIGKILL child `slot` when it is about to perform its n-th operation (0-based; the op does not happen).
     Returns dict(results=[...], trace=[(slot, op, path)...], killed=bool, blocked=[slots])."""
@@ -124,8 +124,19 @@ def run(fns, schedule=None, kill=None, max_steps=20000):
             if not runnable:
                 break
             if schedule is not None and t < len(schedule):
-                c = runnable[schedule[t] % len(runnable)]
-                t += 1
+                e = schedule[t]
+                if isinstance(e, str):
+                    # "s<slot>": one operation of that child; "f<slot>": that child runs until it is done (both skipped
+                    # when the child is not runnable any more)
+                    c = next((x for x in runnable if x.slot == int(e[1:])), None)
+                    if c is None:
+                        t += 1
+                        continue
+                    if e[0] == "s":
+                        t += 1
+                else:
+                    c = runnable[e % len(runnable)]
+                    t += 1
             else:
                 c = runnable[0]
             if kill is not None and c.slot == kill[0] and c.nops == kill[1]:
